@@ -117,6 +117,52 @@ CLAIMED = {
             "trusted: python ast, exact rational arithmetic; one named exception (2-site compression sweep re-derives the factor "
             "from the overlap, checked separately)",
             "DESIGN.md §4 C06/C08"),
+    "C01": ("legspace",
+            "index-space typing (abstract interpretation on CFGs) + taint of permutation resets + backend kernel rules",
+            "Partial: decides for all inputs that every per-leg lookup, slice bound and typed helper argument in the tensor layer "
+            "uses an index of the right space (meta / logical-native / native; joins of different spaces alarm at native sinks), "
+            "that positional helpers receive materialised tensors, that results resetting the lazy permutation carry struct/hfs "
+            "permuted through trans, that user-ordered per-leg data is combined with native fields only after the permutation was "
+            "accounted for, that s/hfs/mfs of results come from the same leg sequences, that negative axes are normalised first, "
+            "that binary kernels promote dtypes and update output-buffer views in place. These are necessary conditions of "
+            "'commutes with to_numpy'; block-pairing arithmetic and numerical content are NOT decided.",
+            "trusted: seed table of index spaces for API/helper parameters (sa/props/e3.py); untyped literal indices not judged",
+            "DESIGN.md §4 C01/C14"),
+    "C02": ("chargeflow",
+            "formal charge arithmetic (free module with signature symbols) + CFG dominance of selection-rule guards + E3 + E1",
+            "Partial: decides that every expression setting a total charge evaluates, as a formal signed sum, to what the algebra "
+            "dictates (24 table rows incl. guards), that the selection rule dominates block creation and loaders validate, that "
+            "s/hfs/mfs of results are coherent (E3) and that only constructor/in-place API write tensor state. Mutual consistency "
+            "of t, D, slices, size produced by the _meta_* functions (and hence zeros outside allowed sectors) is value-level and "
+            "NOT decided.",
+            "trusted: C19 (group law linear mod m); table of charge rows in sa/props/e6.py",
+            "DESIGN.md §4 C02"),
+    "C03": ("fusiondiscipline",
+            "must-pass-through of compatibility tests, def-use of the mask_needed verdict, index typing of masking helpers",
+            "Partial: decides that tensordot/vdot/trace/addition pass the fusion-compatibility and configuration tests on every "
+            "computing path, that unsupported fused legs are rejected, that the verdict mask_needed guards masking/embedding and "
+            "replacement of histories, that masks are applied with native indices on materialised tensors, that N-ary addition "
+            "treats all operands alike. Correctness of the tree-parsing mask construction is value-level and NOT decided.",
+            "trusted: python ast, CFG builder",
+            "DESIGN.md §4 C03"),
+    "C04": ("chargeflow",
+            "structural pairing of the connecting leg, parameter def-use flow, charge rows of decompositions",
+            "Partial: decides that the charge is carried by the selected factor, that the connecting leg has signature E / -E in "
+            "struct and fusion record of the two factors with charges from one variable, that Uaxis/Vaxis/Qaxis/Raxis move (or are "
+            "forwarded for) the factor of the same letter, that masks act on the connecting leg where it is, that sU/nU reach the "
+            "meta function, that s/hfs/mfs of factors are coherent. Reconstruction, isometry, ordering, triangularity are "
+            "LAPACK/value-level and NOT decided.",
+            "trusted: python ast; several sub-rules compare normalised text of short constructor calls",
+            "DESIGN.md §4 C04"),
+    "C14": ("knobs+legspace",
+            "who-may-read and non-interference analysis of configuration knobs + index-space typing",
+            "Partial: decides that the three knobs are read only by tensordot and fuse_legs, that the policy only selects among "
+            "kernels receiving the same operands and binding the same results (unknown values raise), that charge/fusion "
+            "metadata/masking are computed outside the dispatch, that both fusion modes share validation, and — via the E3 rules — "
+            "that lazy and meta-fused operands are addressed through the right index spaces. Numerical agreement of the three "
+            "kernels and path-independence of contract_with_unroll are NOT decided.",
+            "trusted: python ast, CFG builder, seed table of index spaces",
+            "DESIGN.md §4 C14"),
 }
 
 NOT_APPLICABLE = {
